@@ -1518,6 +1518,17 @@ def _dyn_call(ex, recv, trait, meth, args):
     raise Unmodelled('dyn %s::%s on %r' % (trait, meth, v))
 
 
+def _crate_override(ex, recv, trait, meth):
+    """the crate's own implementation of a *provided* trait method (read_to_end, write_all, ...) for the runtime type
+    of the receiver, if it has one: the generic contract model of the provided method must not hide it"""
+    v = deref(recv)
+    while type(v) is Adt and v.name == 'Box':
+        v = v.extra[0]
+    if type(v) is Adt:
+        return ex.prog.by_trait_impl.get((v.name.split('::')[-1], trait, meth))
+    return None
+
+
 COPY_BUF = 2     # model buffer capacity of io::copy / read_to_end (the real 8 KiB constant is std-internal)
 
 
@@ -1555,8 +1566,8 @@ def m_io_copy(ex, c, a, m):
 @model(r'<Box<dyn .+> as std::io::Read>::(read_to_string|read_to_end|read|read_exact)|<.+ as std::io::Read>::(read_to_string|read_to_end)')
 def m_read_to(ex, c, a, m):
     op = m.group(1) or m.group(2)
-    if op == 'read':
-        return _dyn_call(ex, a[0], 'std::io::Read', 'read', [a[1]])
+    if op == 'read' or _crate_override(ex, a[0], 'Read', op) is not None:
+        return _dyn_call(ex, a[0], 'std::io::Read', op, a[1:])
     cap = ex.hooks.get('copy_buf', COPY_BUF)
     got = ()
     for _ in range(64):
@@ -1584,7 +1595,7 @@ def m_box_write(ex, c, a, m):
     if m.group(2):
         return _dyn_call(ex, a[0], 'Seek', 'seek', [a[1]])
     op = m.group(1)
-    if op == 'write_all':
+    if op == 'write_all' and _crate_override(ex, a[0], 'Write', op) is None:
         chunk = as_S(a[1])
         while len(chunk):
             w = _dyn_call(ex, a[0], 'std::io::Write', 'write', [ValRef(chunk)])
